@@ -852,6 +852,20 @@ let run_decjson payload =
   | [t] -> L [A "decision"; A (if dec_decision (json_of_sx t) then "allow" else "deny")]
   | _ -> failwith "decjson payload"
 
+(* ---- coerce: schema-guided coercion of one value along one declared type (Impl/Coerce.v) ---- *)
+let run_coerce payload =
+  match payload with
+  | [t; v] -> sx_of_value (coerce (cty_of_rsx t) (value_of_sx v))
+  | _ -> failwith "coerce payload"
+
+let run_coercetags payload =
+  match payload with
+  | [t; v] ->
+    (match value_of_sx v with
+     | VRecord kvs -> sx_of_value (VRecord (coerce_tags (Some (cty_of_rsx t)) kvs))
+     | _ -> failwith "coercetags: record expected")
+  | _ -> failwith "coercetags payload"
+
 (* ---- vverdict: Validator.Policy accept / reject (Impl/ValidatePolicy.v) ---- *)
 let run_vverdict payload =
   match payload with
@@ -874,6 +888,8 @@ let run_vverdict payload =
 let run_case kind payload =
   match kind with
   | "vverdict" -> run_vverdict payload
+  | "coerce" -> run_coerce payload
+  | "coercetags" -> run_coercetags payload
   | "rjsonenc" -> run_rjsonenc payload
   | "rjsondec" -> run_rjsondec payload
   | "djsonenc" -> run_djsonenc payload
